@@ -100,7 +100,10 @@ def drive(lines, ch: Channel):
 def expected_la_url(template: str | None, keys: list[tuple[bytes, bytes, bool]], default_kid: bytes,
                     security_level: int = 150) -> str:
     t = TEST_LA_URL if template is None else template
-    return t.replace("{cfgs}", orc.cfgs_for(keys, security_level)).replace("{default_kid}", default_kid.hex())
+    # one left-to-right pass, inserted text is not scanned again (PlayReady.expand_la_url)
+    fields = {"cfgs": orc.cfgs_for(keys, security_level), "default_kid": default_kid.hex(),
+              "kids": str([orc.bytes_le(k) for k, _, _ in keys])}
+    return re.sub(r"\{(cfgs|default_kid|kids)\}", lambda m: fields[m.group(1)], t)
 
 
 RESERVED_URLS = [
@@ -626,7 +629,8 @@ def ch_prheader(ctx, env) -> Channel:
             continue
         keys = [k for k in p["kids"] if k in store]
         dks = [p["default_kid"]] if "default_kid" in p else sorted(p.get("default_kids") or [])
-        la = "none" if not c.get("la") else lib.text_cp(c["la"][1])
+        lat = la_template_for(env, c)
+        la = "none" if lat is None else lib.text_cp(lat)
         cand = []
         for perm in _it.islice(_it.permutations(keys), 6):
             ks = ",".join(f"{k.hex()}:{store[k][0].hex()}:{lib.text_cp('AESCTR')}:{1 if store[k][1] else 0}" for k in perm) or "-"
@@ -636,7 +640,9 @@ def ch_prheader(ctx, env) -> Channel:
         tlines += cand
     tout = drive(tlines, ch)
     for (c, p), (at, n, payload) in zip(pending, tspans):
-        if n and "driver-error" not in tout[at:at + n] and payload.hex() not in tout[at:at + n]:
+        if n and all(x == "err" for x in tout[at:at + n]):
+            ch.count("licence URL outside the modelled place holders ({kids}) - oracle only")
+        elif n and "driver-error" not in tout[at:at + n] and payload.hex() not in tout[at:at + n]:
             ch.disagreements.append({"case": c, "what": f"wrmText ({p['where']})",
                                      "model": bytes.fromhex(tout[at]).decode("utf-16-le", "replace")[-160:] if tout[at] not in ("err", "bad-op") else tout[at],
                                      "impl": payload.decode("utf-16-le", "replace")[-160:]})
@@ -673,7 +679,7 @@ def ch_prheader(ctx, env) -> Channel:
 
 
 def gen_prheader_http(ctx, env, rng) -> list[dict]:
-    media = [m for m in env.media() if m["encrypted"] and m["stream"] in ("bbb", "mk", "va")]
+    media = [m for m in env.media() if m["encrypted"] and (m["stream"] in ("bbb", "mk", "va", "nl") or m["stream"].startswith("lu"))]
     cases = []
     # regression: the licence URL with '&' (fixed defect) in every location
     amp = "http://lic.example/rights?a=1&b=2"
@@ -682,6 +688,12 @@ def gen_prheader_http(ctx, env, rng) -> list[dict]:
                       "drm": "playready", "version": None, "la": ["playready_la_url", amp]})
     cases.append({"kind": "prheader_http", "source": "manifest", "stream": "bbb", "manifest": "hand_made.mpd",
                   "mode": "vod", "drm": "playready", "version": None, "la": ["playready_la_url", amp]})
+    # every stream with its own stored licence URL (one per URL content class), no URL in the request
+    for lu in sorted(c11_env.STORED_LA_URLS):
+        cases.append({"kind": "prheader_http", "source": "init", "stream": lu, "name": f"{lu}_v6_enc", "mode": "vod",
+                      "drm": "playready", "version": None, "la": None})
+        cases.append({"kind": "prheader_http", "source": "manifest", "stream": lu, "manifest": "hand_made.mpd",
+                      "mode": "vod", "drm": "all", "version": None, "la": None})
     # video and audio adaptation sets with different key ids in one period
     cases.append({"kind": "prheader_http", "source": "manifest", "stream": "va", "manifest": "hand_made.mpd",
                   "mode": "vod", "drm": "playready", "version": None, "la": None})
@@ -697,7 +709,7 @@ def gen_prheader_http(ctx, env, rng) -> list[dict]:
                  "manifest_ef.mpd", "manifest_i.mpd"]
     for _ in range(ctx.scale(40, 400)):
         mf = rng.choice(manifests)
-        cases.append({"kind": "prheader_http", "source": "manifest", "stream": rng.choice(["bbb", "mk", "va", "va"]),
+        cases.append({"kind": "prheader_http", "source": "manifest", "stream": rng.choice(["bbb", "mk", "va", "va", "lu1", "lu2", "lu3", "lu5", "nl"]),
                       "manifest": mf, "mode": "vod" if mf in VOD_ONLY else rng.choice(["vod", "live"]),
                       "drm": rng.choice(["playready", "playready-cenc", "playready-pro", "playready-cenc-pro", "all",
                                          "playready-pro-moov,marlin"]),
@@ -705,13 +717,41 @@ def gen_prheader_http(ctx, env, rng) -> list[dict]:
     return cases
 
 
+_STORED_LA = {}
+
+
+def la_template_for(env, c) -> str | None:
+    """the licence URL as configured at its source, under the documented decoding rule of that source:
+    raw `<drm>_la_url` argument – verbatim (after the query-string decoding every parameter gets);
+    `<drm>__la_url` option (cgi type <escaped-url>) – URL-decoded once more; stored per stream –
+    verbatim; none of them – the built-in default (None)"""
+    import urllib.parse
+    if c.get("la"):
+        param, value = c["la"]
+        return urllib.parse.unquote_plus(value) if "__" in param else value
+    if not _STORED_LA:
+        _STORED_LA.update(env.stored_la_urls())
+    return _STORED_LA.get(c.get("stream"))
+
+
+URL_CLASS_POOL = list(c11_env.STORED_LA_URLS.values())[:5] + [
+    "https://lic.example.com/?a=%7B&b=%2B&c=%26&d=%2F&e=%25&f=%20&g=+&h=a+b",
+    "https://lic.example.com/q?x=1&y=2;z=3&w==&=v",
+]
+
+
 def gen_la(rng, manifest_safe=False):
+    import urllib.parse
     r = rng.random()
     if r < .35:
         return None
-    if r < .8:
-        return ["playready_la_url", gen_url(rng, manifest_safe=manifest_safe)]
-    return ["playready__la_url", gen_url(rng, allow_pct_plus=False, manifest_safe=manifest_safe)]
+    url = rng.choice(URL_CLASS_POOL) if rng.random() < .35 else gen_url(rng, manifest_safe=manifest_safe)
+    if manifest_safe:
+        url = url.replace("<", "(").replace('"', "'")
+    if r < .7:
+        return ["playready_la_url", url]
+    # the option is documented as <escaped-url>: mostly the quoted form, sometimes a bare value
+    return ["playready__la_url", urllib.parse.quote_plus(url) if rng.random() < .7 else url]
 
 
 NOW = "2024-05-01T12:00:00Z"
@@ -778,7 +818,7 @@ def oracle_prheader_http(env, c, res=None) -> list[dict]:
         return [{"what": f"request answered {res.get('status')}", "case": c}] if res.get("status", 0) >= 500 else []
     store = env.stored_keys()
     fails = []
-    la = c["la"][1] if c.get("la") else None
+    la = la_template_for(env, c)
     if c["source"] == "init" and res.get("expect_pro") and not res["pros"]:
         fails.append({"what": "PlayReady with moov requested but the init segment has no PlayReady pssh", "case": c})
     for p in res["pros"]:
@@ -1067,6 +1107,17 @@ def oracle_b64url(case) -> list[dict]:
 
 # ---------------------------------------------------------------- cp_elements
 
+def cp_la(rng):
+    import urllib.parse
+    r = rng.random()
+    if r < .65:
+        return None
+    url = (rng.choice(URL_CLASS_POOL) if rng.random() < .4 else gen_url(rng, manifest_safe=True)).replace("<", "(").replace('"', "'")
+    if r < .85:
+        return ["playready__la_url", urllib.parse.quote_plus(url)]
+    return ["clearkey_la_url", url]
+
+
 def gen_cp_cases(ctx, rng) -> list[dict]:
     manifests = ["hand_made.mpd", "manifest_e.mpd", "manifest_h.mpd", "manifest_n.mpd", "manifest_b.mpd",
                  "manifest_ef.mpd", "manifest_i.mpd"]
@@ -1091,11 +1142,11 @@ def gen_cp_cases(ctx, rng) -> list[dict]:
         drm = sels[i % len(sels)]
         route = "mps" if rng.random() < .2 else "dash"
         mf = "hand_made.mpd" if route == "mps" or rng.random() < .4 else rng.choice(manifests)
-        cases.append({"kind": "cp", "route": route, "stream": rng.choice(["bbb", "mk", "va", "va"]),
+        cases.append({"kind": "cp", "route": route, "stream": rng.choice(["bbb", "mk", "va", "va", "lu1", "lu3", "lu5"]),
                       "manifest": mf,
                       "mode": "vod" if mf in VOD_ONLY else rng.choice(["vod", "live"]), "drm": drm,
                       "version": rng.choice(lib.PR_VERSIONS),
-                      "la": (["playready__la_url", gen_url(rng, allow_pct_plus=False, manifest_safe=True)] if rng.random() < .25 else None)})
+                      "la": cp_la(rng)})
     return cases
 
 
@@ -1204,6 +1255,13 @@ def oracle_cp(env, c, res=None) -> list[dict]:
         if "clearkey" in req and "clearkey" in sh["systems"]:
             if sh["ck_cenc"] != ("cenc" in req["clearkey"]):
                 fails.append({"what": f"{where}: ClearKey cenc:pssh present={sh['ck_cenc']} but locations requested {sorted(req['clearkey'])}"})
+        # the ClearKey licence URL element names the URL configured for the request: the raw clearkey_la_url
+        # argument verbatim, else the server's own /clearkey endpoint
+        for cp in adp["cps"]:
+            if lib.system_of_scheme(cp["scheme"]) == "clearkey" and cp["laurl"] is not None:
+                want_la = c["la"][1] if c.get("la") and c["la"][0] == "clearkey_la_url" else "http://localhost/clearkey"
+                if cp["laurl"] != want_la:
+                    fails.append({"what": f"{where}: clearkey:Laurl {cp['laurl']!r} differs from the licence URL {want_la!r}"})
         # cenc:default_KID = the track's key id (read from the tenc box of the stored init segment)
         track_kids = set()
         for m in reps:
@@ -1353,6 +1411,9 @@ def drm_probes(env) -> list[dict]:
         for drm, ver in (("playready", None), ("all", None), ("playready-moov", "3.0"), ("clearkey", None)):
             out.append({"kind": "prheader_http", "source": "init", "stream": stream, "name": name,
                         "mode": "vod" if ver is None else "live", "drm": drm, "version": ver, "la": None})
+    for lu in sorted(c11_env.STORED_LA_URLS):
+        out.append({"kind": "prheader_http", "source": "init", "stream": lu, "name": f"{lu}_v6_enc", "mode": "vod",
+                    "drm": "playready", "version": None, "la": None})
     for stream in ("nl", "bbb", "va"):
         for drm in ("playready", "all"):
             out.append({"kind": "cp", "route": "dash", "stream": stream, "manifest": "hand_made.mpd", "mode": "vod",
